@@ -959,11 +959,11 @@ const fn part(name: &'static str, quick: u32, thorough: u32) -> PartCfg {
     PartCfg { name, genome_len: 128, cases_quick: quick, cases_thorough: thorough, panic: PanicPolicy::Count }
 }
 const PARTS: [(Clause, PartCfg); 5] = [
-    (Clause::Permute, part("permute", 600, 160_000)),
-    (Clause::Pad, part("pad", 1200, 240_000)),
-    (Clause::Split, part("split", 1500, 240_000)),
-    (Clause::Subset, part("subset", 300, 80_000)),
-    (Clause::PureQuantities, part("pure-quantities", 200, 40_000)),
+    (Clause::Permute, part("permute", 2400, 160_000)),
+    (Clause::Pad, part("pad", 4800, 240_000)),
+    (Clause::Split, part("split", 6000, 240_000)),
+    (Clause::Subset, part("subset", 1200, 80_000)),
+    (Clause::PureQuantities, part("pure-quantities", 400, 40_000)),
 ];
 
 pub fn run(ctx: &Ctx) {
